@@ -1,6 +1,6 @@
 """Per-property texts of MANIFEST.json."""
 
-TIE = "Trusted: Lean kernel; axioms propext/Classical.choice/Quot.sound only (audited each run); the hand-written model is tied to the code by extract_facts.py (constants/layouts/guards regenerated from source every run) and by the correspondence suite; CPython semantics of int/array/struct."
+TIE = "Trusted: Lean kernel; axioms propext/Classical.choice/Quot.sound only (audited each run); the hand-written model is tied to the code by extract_facts.py (constants/layouts/guards regenerated from source every run; guards are read as written and the canonical operator the models use is re-proved equivalent in Lemmas/GuardCanon.lean on every run) and by the correspondence suite (a disagreement counts for a property where it is introduced, on the lines and facets that property looks at); CPython semantics of int/array/struct."
 
 META = {
     "C20": {
